@@ -140,7 +140,12 @@ class RenderIterator:
             self._iterate, render_args, padding, iteration=True, finalize=False
         )
         self._finalize_data = True
-        next(self._iterator)
+        try:
+            next(self._iterator)
+        except BaseException:
+            # There'll be no iterator for the caller to close
+            self.close()
+            raise
 
     def __del__(self) -> None:
         try:
@@ -504,7 +509,12 @@ class RenderIterator:
         )
         new._iterator = new._iterate(render_data, render_args)
         new._finalize_data = finalize
-        next(new._iterator)
+        try:
+            next(new._iterator)
+        except BaseException:
+            # There'll be no iterator for the caller to close
+            new.close()
+            raise
 
         return new
 
